@@ -433,6 +433,11 @@ impl Driver for Deterministic {
         let mut outs: Vec<Result<Vec<u8>, String>> = vec![];
         let mut info_fp = None;
         let reps = if c.mode == Mode::Replay { 8 } else { 3 };
+        // decided by the tape fingerprint, not by a tape read: the scenario itself is unchanged
+        let side_effects = tape_fp % 4 == 0;
+        if side_effects {
+            c.class("output:side_effect_report");
+        }
         for _ in 0..reps {
             c.t = t0.clone();
             let mut got: Option<Result<Vec<u8>, String>> = None;
@@ -440,7 +445,11 @@ impl Driver for Deterministic {
                 if info.edits + info.injections >= 1 {
                     info_fp = Some(info.fp);
                 }
-                got = Some(run_lib(|| b.encode()).map_err(|p| p.signature()));
+                got = Some(match (&mut b, side_effects) {
+                    // one scenario in four: the side-effect report instead of the bytes
+                    (Built::M(m), true) => run_lib(|| render_side_effects(&m.pull_side_effects())).map_err(|p| p.signature()),
+                    _ => run_lib(|| b.encode()).map_err(|p| p.signature()),
+                });
                 Outcome::Pass
             });
             match o {
@@ -486,4 +495,36 @@ impl Driver for Deterministic {
         }
         Outcome::Pass
     }
+}
+
+/// Canonical text of a side-effect report: record kinds in a fixed order, the records of one
+/// kind in the order the library returns them (a vector: its order is part of the output).
+fn render_side_effects(se: &std::collections::HashMap<wirm::ir::module::side_effects::InjectType, Vec<wirm::ir::module::side_effects::Injection>>) -> Vec<u8> {
+    use wirm::ir::module::side_effects::Injection as I;
+    let mut kinds: Vec<_> = se.keys().copied().collect();
+    kinds.sort();
+    let mut out = String::new();
+    for k in kinds {
+        out.push_str(&format!("[{:?}]\n", k));
+        for inj in &se[&k] {
+            let line = match inj {
+                I::Import { module, name, type_ref, tag } => format!("import {} {} {:?} {:?}", module, name, type_ref, tag.data()),
+                I::Export { name, kind, index, tag } => format!("export {} {:?} {} {:?}", name, kind, index, tag.data()),
+                I::Type { ty, tag } => format!("type {:?} {:?}", ty, tag.data()),
+                I::Memory { id, initial, maximum, tag } => format!("memory {} {} {:?} {:?}", id, initial, maximum, tag.data()),
+                I::PassiveData { data, tag } => format!("data passive {:?} {:?}", data, tag.data()),
+                I::ActiveData { memory_index, offset_expr, data, tag } => format!("data active {} {:?} {:?} {:?}", memory_index, offset_expr, data, tag.data()),
+                I::Global { id, ty, shared, mutable, init_expr, tag } => format!("global {} {:?} {} {} {:?} {:?}", id, ty, shared, mutable, init_expr, tag.data()),
+                I::Func { id, fname, sig, locals, body, tag } => format!("func {} {:?} {:?} {:?} {:?} {:?}", id, fname, sig, locals, body.iter().map(|i| format!("{:?}", i.op)).collect::<Vec<_>>(), tag.data()),
+                I::Local { target_fid, ty, tag } => format!("local {} {:?} {:?}", target_fid, ty, tag.data()),
+                I::Table { tag } => format!("table {:?}", tag.data()),
+                I::Element { tag } => format!("element {:?}", tag.data()),
+                I::FuncProbe { target_fid, mode, body, tag } => format!("funcprobe {} {:?} {:?} {:?}", target_fid, mode, body, tag.data()),
+                I::FuncLocProbe { target_fid, target_opcode_idx, mode, body, tag } => format!("locprobe {} {} {:?} {:?} {:?}", target_fid, target_opcode_idx, mode, body, tag.data()),
+            };
+            out.push_str(&line);
+            out.push('\n');
+        }
+    }
+    out.into_bytes()
 }
